@@ -24,9 +24,20 @@
    canonical form of the NEW data), C13_all_update_data_refresh_eq_fresh (stored matrix = fresh object, non-zero mask),
    C13_all_update_data_eq_fresh (update_data, any covering mask, followed by update_scalings: stored matrix = fresh init followed
    by the same update_scalings).
-   NOT proved: the permuted versions (arbitrary fill-reducing ordering; perm_addr_okb is evaluated by the stage on every tested
-   ordering, the simulation lemmas for this mode's loops are not written).  KKT_EQ_ELIMINATED / KKT_INEQ_ELIMINATED are not modelled. *)
-From PIQP Require Import Base CSC C14LemmasProofs LinAlg KKTProofs KKTSparseFull KKTSparseFullProofs KKTSparseAll KKTSparseAllTrProofs KKTSparseAllProofs KKTSparseAllDataProofs.
+   Permuted versions (ord = Some perm), names *_partial: as in KKT_FULL mode they take the boolean check perm_addr_okb
+   (KKTSparseFullPerm.v; evaluated by the stage on every tested ordering) on the pattern of the identity-ordered matrix as a
+   HYPOTHESIS -- it is packaged in
+     all_perm_img n perm kid kp   ordering_init perm = Ok o, permute_sym ON POSITIONS of kid's pattern = Ok (Cpos, a2c), perm_spec_okb
+                                  of that result = true, and kp = (same scalings, maps, caches, products, tmp; pinv = oPinv o;
+                                  pattern of Cpos; PKi = a2c; kx_p[a2c q] = kx_id[q]  (vrelA)).
+   What is missing for the unconditional statement: perm_spec_okb for EVERY permutation (the all-n theorem C14_permute_sym_spec gives
+   the bijection, the entry placement and the values, but not that the diagonal entry of each permuted column is stored LAST, which is
+   what the diagonal addressing Kp[pinv col + 1] - 1 of this mode relies on; sortedness of the columns of permute_sym's result is not
+   proved).  Under the check: C13_all_perm_init_partial (both init runs succeed, image relation), C13_all_perm_update_scalings_form_partial,
+   C13_all_perm_form_denotes_partial (entries of the permuted stored matrix = a_Kred, via PermuteGenProofs.permute_sym_get and
+   naturality), C13_all_perm_update_data_form_partial, C13_all_perm_update_data_eq_fresh_partial (= new permuted object).
+   KKT_EQ_ELIMINATED / KKT_INEQ_ELIMINATED: see Properties_C13_eqineq.v if present (other files). *)
+From PIQP Require Import Base CSC C14LemmasProofs LinAlg KKTProofs KKTSparseFull KKTSparseFullProofs KKTSparseFullPerm KKTSparseAll KKTSparseAllTrProofs KKTSparseAllProofs KKTSparseAllDataProofs KKTSparseAllPermProofs.
 Local Open Scope nat_scope.
 
 (* (1) the merge walk.  src_ok n kcols S: S is compressed with n columns, strictly increasing, each contained in the column kcols j
@@ -222,6 +233,87 @@ Theorem C13_all_update_data_eq_fresh : forall (d : sdata) (k : akkt) (mask : nat
 Proof. exact all_update_data_scalings_eq_fresh. Qed.
 Print Assumptions C13_all_update_data_eq_fresh.
 
+(* ================================================================ permuted versions (ord = Some perm), conditional on the check *)
+(* init under an ordering that passes perm_addr_okb: both runs succeed, the identity-ordered state is canonical, the permuted state is
+   its image *)
+Theorem C13_all_perm_init_partial : forall (d : sdata), wf_sdata d -> upper_only (sd_P d) = true -> sorted_colsb (sd_P d) = true ->
+  forall (rho delta : F) (perm : list nat) (am : allmat),
+  delta <> 0%Qc -> (1 + delta)%Qc <> 0%Qc -> scal_ok d (unit_scal d rho delta) ->
+  all_create d rho delta = Ok am ->
+  perm_addr_okb (sd_n d) (colptr (am_K am)) (rowind (am_K am)) perm = true ->
+  exists kid kp, all_init d rho delta None = Ok kid /\ all_init d rho delta (Some perm) = Ok kp /\
+                 all_form d (unit_scal d rho delta) kid /\ all_perm_img (sd_n d) perm kid kp /\
+                 ak_kp kid = colptr (am_K am) /\ ak_ki kid = rowind (am_K am).
+Proof. exact all_init_perm. Qed.
+Print Assumptions C13_all_perm_init_partial.
+
+(* the simulation lemmas for this mode's loops: add_vals through the map a2c, diagonal += rho / box loops through the diagonal
+   addressing of the permuted pattern, the four refresh calls (cost, equality, inequality incl. the weighted scatter product, box) *)
+Theorem C13_all_perm_refresh_sim_partial : forall (d : sdata), wf_sdata d -> upper_only (sd_P d) = true -> sorted_colsb (sd_P d) = true ->
+  forall (perm : list nat) (kid kp : akkt),
+  all_static d kid -> all_scal_ok d (ak_sc kid) -> all_perm_img (sd_n d) perm kid kp ->
+  exists kid' kp', all_refresh d kid = Ok kid' /\ all_refresh d kp = Ok kp' /\ all_form d (ak_sc kid) kid' /\
+    ak_A kid' = ak_A kid /\ ak_G kid' = ak_G kid /\ all_perm_img (sd_n d) perm kid' kp'.
+Proof. exact img_refresh. Qed.
+Print Assumptions C13_all_perm_refresh_sim_partial.
+
+(* (c), permuted *)
+Theorem C13_all_perm_update_scalings_form_partial : forall (d : sdata), wf_sdata d -> upper_only (sd_P d) = true -> sorted_colsb (sd_P d) = true ->
+  forall (perm : list nat) (kid kp : akkt) (rho delta : F) (s s_lb s_ub z z_lb z_ub zi zlbi zubi : Vec),
+  all_static d kid -> all_perm_img (sd_n d) perm kid kp ->
+  sd_nlb d <= length s_lb -> sd_nlb d <= length z_lb -> sd_nub d <= length s_ub -> sd_nub d <= length z_ub ->
+  vinv z = Ok zi -> vinv (head (sd_nlb d) z_lb) = Ok zlbi -> vinv (head (sd_nub d) z_ub) = Ok zubi ->
+  all_scal_ok d (new_scal d (ak_sc kid) rho delta s s_lb s_ub zi zlbi zubi) ->
+  exists kid' kp', all_update_scalings d kid rho delta s s_lb s_ub z z_lb z_ub = Ok kid' /\
+                   all_update_scalings d kp rho delta s s_lb s_ub z z_lb z_ub = Ok kp' /\
+                   all_form d (new_scal d (ak_sc kid) rho delta s s_lb s_ub zi zlbi zubi) kid' /\
+                   all_perm_img (sd_n d) perm kid' kp'.
+Proof. exact all_perm_update_scalings_form. Qed.
+Print Assumptions C13_all_perm_update_scalings_form_partial.
+
+(* what the image of a canonical state denotes: K_red(data, scalings) symmetrically permuted, upper triangle, diagonal last *)
+Theorem C13_all_perm_form_denotes_partial : forall (d : sdata), wf_sdata d -> upper_only (sd_P d) = true -> sorted_colsb (sd_P d) = true ->
+  forall (c : scal) (perm : list nat) (kid kp : akkt), all_form d c kid -> all_perm_img (sd_n d) perm kid kp ->
+  let Kp := mkcsc (sd_n d) (sd_n d) (ak_kp kp) (ak_ki kp) (ak_kx kp) in
+  let pv := fun i => nth i (ak_pinv kp) 0 in
+  wf_csc Kp = true /\ upper_only Kp = true /\ diag_is_last Kp /\
+  length (ak_pinv kp) = sd_n d /\ (forall i, i < sd_n d -> pv i < sd_n d) /\
+  (forall i i', i < sd_n d -> i' < sd_n d -> pv i = pv i' -> i = i') /\
+  forall i j, i <= j -> j < sd_n d ->
+    csc_get Kp (Nat.min (pv i) (pv j)) (Nat.max (pv i) (pv j)) = a_Kred (sys_sparse d c) i j.
+Proof. exact all_perm_form_denotes. Qed.
+Print Assumptions C13_all_perm_form_denotes_partial.
+
+(* (d), permuted: update_data on both states *)
+Theorem C13_all_perm_update_data_form_partial : forall (d : sdata) (perm : list nat) (kid kp : akkt) (mask : nat) (px ax gx lbs ubs : Vec),
+  wf_sdata d -> upper_only (sd_P d) = true -> sorted_colsb (sd_P d) = true -> all_static d kid ->
+  all_perm_img (sd_n d) perm kid kp ->
+  length px = nnz (sd_P d) -> length ax = nnz (sd_AT d) -> length gx = nnz (sd_GT d) ->
+  covers_all mask d px ax gx lbs ubs ->
+  let d' := with_all d px ax gx lbs ubs in
+  (mask <> 0 -> all_scal_ok d' (ak_sc kid)) ->
+  exists kid' kp', all_update_data d' kid mask = Ok kid' /\ all_update_data d' kp mask = Ok kp' /\
+                   all_static d' kid' /\ ak_sc kid' = ak_sc kid /\ cache_pat kid' kid /\
+                   (mask <> 0 -> all_form d' (ak_sc kid) kid') /\
+                   ak_kp kid' = ak_kp kid /\ ak_ki kid' = ak_ki kid /\ all_perm_img (sd_n d) perm kid' kp'.
+Proof. exact all_perm_update_data_form. Qed.
+Print Assumptions C13_all_perm_update_data_form_partial.
+
+(* T2, permuted, non-zero covering mask: ordering, pattern, map and values of a new permuted object on the new data *)
+Theorem C13_all_perm_update_data_eq_fresh_partial : forall (d : sdata) (perm : list nat) (kid kp : akkt) (mask : nat) (px ax gx lbs ubs : Vec),
+  wf_sdata d -> upper_only (sd_P d) = true -> sorted_colsb (sd_P d) = true -> all_static d kid -> canon_caches d kid ->
+  all_perm_img (sd_n d) perm kid kp ->
+  length px = nnz (sd_P d) -> length ax = nnz (sd_AT d) -> length gx = nnz (sd_GT d) ->
+  covers_all mask d px ax gx lbs ubs -> mask <> 0 ->
+  let d' := with_all d px ax gx lbs ubs in
+  let c := ak_sc kid in
+  all_scal_ok d' c -> (1 + sc_delta c)%Qc <> 0%Qc -> scal_ok d' (unit_scal d' (sc_rho c) (sc_delta c)) ->
+  exists kid' kp' kpf, all_update_data d' kid mask = Ok kid' /\ all_update_data d' kp mask = Ok kp' /\ all_fresh_perm d' c perm = Ok kpf /\
+                all_form d' c kid' /\ all_perm_img (sd_n d) perm kid' kp' /\
+                ak_pinv kp' = ak_pinv kpf /\ ak_kp kp' = ak_kp kpf /\ ak_ki kp' = ak_ki kpf /\ ak_PKi kp' = ak_PKi kpf /\ ak_kx kp' = ak_kx kpf.
+Proof. exact all_perm_update_data_eq_fresh. Qed.
+Print Assumptions C13_all_perm_update_data_eq_fresh_partial.
+
 (* non-vacuity: the example of Properties_C13_full.v (P 3x3 without stored (1,1), p = m = 1): init under the identity ordering
    and under the ordering (2,0,1); the walk maps the four entries of P_utri to positions 0,1,3,4 of the 5-entry reduced matrix *)
 Local Open Scope Qc_scope.
@@ -244,4 +336,11 @@ Definition exa_d' : sdata := with_all exa_d [exa_q 6; exa_q (-2); exa_q 1; exa_q
 Example exa_update_data : exists k k1 kf,
   all_init exa_d (exa_q 10) (exa_q 7) None = Ok k /\ all_update_data exa_d' k 6 = Ok k1 /\ all_fresh exa_d' (ak_sc k) = Ok kf /\
   ak_kx k1 = ak_kx kf /\ ak_ki k1 = ak_ki kf.
+Proof. eexists; eexists; eexists. split; [vm_compute; reflexivity|]. split; [vm_compute; reflexivity|]. split; [vm_compute; reflexivity|]. split; vm_compute; reflexivity. Qed.
+
+(* the check holds on the example's reduced pattern for the ordering (2,0,1): the hypotheses of the *_partial theorems are satisfiable *)
+Example exa_perm_check : perm_addr_okb 3 [0; 1; 3; 6]%nat [0; 0; 1; 0; 1; 2]%nat [2; 0; 1]%nat = true.
+Proof. vm_compute. reflexivity. Qed.
+Example exa_perm_fresh : exists k kp kf, all_init exa_d (exa_q 10) (exa_q 7) (Some [2; 0; 1]%nat) = Ok k /\
+  all_update_data exa_d' k 6 = Ok kp /\ all_fresh_perm exa_d' (ak_sc k) [2; 0; 1]%nat = Ok kf /\ ak_kx kp = ak_kx kf /\ ak_ki kp = ak_ki kf.
 Proof. eexists; eexists; eexists. split; [vm_compute; reflexivity|]. split; [vm_compute; reflexivity|]. split; [vm_compute; reflexivity|]. split; vm_compute; reflexivity. Qed.
